@@ -1050,10 +1050,16 @@ def adapt_typehints(
         elif isinstance(val, (dict, Namespace)):
             if is_subclass_spec(val) and get_import_path(typehint) == val.get("class_path"):
                 val = val.get("init_args")
-            val = parser.parse_object(val, defaults=sub_defaults.get() or list_item)
+            try:
+                val = parser.parse_object(val, defaults=sub_defaults.get() or list_item)
+            except ArgumentError as ex:
+                raise_unexpected_value(f"Problem with given {typehint.__name__}:\n{indent_text(str(ex))}", exception=ex)
         elif isinstance(val, NestedArg):
             prev_val = prev_val if isinstance(prev_val, Namespace) else None
-            val = parser.parse_args([f"--{val.key}={val.val}"], namespace=prev_val)
+            try:
+                val = parser.parse_args([f"--{val.key}={val.val}"], namespace=prev_val)
+            except ArgumentError as ex:
+                raise_unexpected_value(f"Problem with given {typehint.__name__}:\n{indent_text(str(ex))}", exception=ex)
         else:
             raise_unexpected_value(f"Type {typehint} expects a dict or Namespace", val)
 
